@@ -53,6 +53,8 @@ def _on_instruction(code, offset):
     offs = _instrumented.get(code)
     if offs is None or offset not in offs:
         return
+    if s.active is not None and code not in s.active:
+        return  # instrumented for another harness that ran earlier in this process
     t = s.by_ident.get(_threading.get_ident())
     if t is None:
         return
@@ -60,7 +62,9 @@ def _on_instruction(code, offset):
 
 
 def instrument(*funcs):
-    """Register scheduling points on the given functions / methods (idempotent)."""
+    """Register scheduling points on the given functions / methods (idempotent). Returns the set of code objects, to be given to
+    Sched.active so that an execution only sees the points of its own harness (the registry itself is process-wide and cumulative)."""
+    mine = set()
     mon = sys.monitoring
     if not _tool_ready[0]:
         try:
@@ -74,11 +78,14 @@ def instrument(*funcs):
         todo = [code]
         while todo:
             c = todo.pop()
-            if c in _instrumented:
+            if c in mine:
                 continue
-            _instrumented[c] = {i.offset for i in dis.get_instructions(c) if i.opname in POINT_OPS}
-            mon.set_local_events(TOOL_ID, c, mon.events.INSTRUCTION)
+            mine.add(c)
+            if c not in _instrumented:
+                _instrumented[c] = {i.offset for i in dis.get_instructions(c) if i.opname in POINT_OPS}
+                mon.set_local_events(TOOL_ID, c, mon.events.INSTRUCTION)
             todo.extend(k for k in c.co_consts if isinstance(k, types.CodeType))
+    return mine
 
 
 class TState:
@@ -102,6 +109,8 @@ class Sched:
         self.by_ident: dict = {}
         self.current: TState | None = None
         self.points: list = []
+        self.labels: list = []
+        self.active = None  # code objects whose instruction events are scheduling points in this execution (None = all registered)
         self.obs: list = []
         self.state_digests: list = []
         self.abort = False
@@ -196,6 +205,7 @@ class Sched:
         else:
             c = 0
         self.points.append((len(options), c))
+        self.labels.append((cur.name, cur.last, tuple(t.name for t in options)))
         self.state_digests.append(hashlib.sha1(repr((cur.name, cur.last, [(t.name, t.last, t.done) for t in self.threads], self.state_fn())).encode()).hexdigest()[:16])
         return options[c]
 
@@ -254,13 +264,19 @@ def sched() -> Sched:
 class CLock:
     def __init__(self):
         self.held_by = None
+        s = sched()
+        if s is not None:
+            s.nlocks = getattr(s, "nlocks", 0) + 1
+            self.seq = s.nlocks  # creation order within the execution: a stable label (memory addresses differ between processes)
+        else:
+            self.seq = 0
 
     def acquire(self, blocking=True, timeout=-1):
         s = sched()
         if s is None or s.by_ident.get(_threading.get_ident()) is None:
             self.held_by = "outside"
             return True
-        s.point(("lock-acquire", id(self) % 1000))
+        s.point(("lock-acquire", self.seq))
         if self.held_by is not None:
             if not blocking:
                 return False
